@@ -364,7 +364,7 @@ class ComponentLevel3( ComponentLevel2 ):
             if v not in visited:
               pred[v] = u
               Q.append( v )
-            elif v is not pred[u]:
+            elif v is not pred.get(u):
               raise InvalidConnectionError(repr(v)+" is in a connection loop.")
         if len(net) == 1:
           continue
